@@ -433,6 +433,16 @@ impl Report {
             if new_violations.len() > 20 {
                 println!("  ... and {} more violations of property {}", new_violations.len() - 20, id);
             }
+            // grouped summary (by signature head) so that large result sets stay readable
+            let mut classes: BTreeMap<String, (u64, String)> = BTreeMap::new();
+            for v in &new_violations {
+                let head: String = v.signature.chars().take(70).collect();
+                let e = classes.entry(head).or_insert((0, v.case.clone()));
+                e.0 += 1;
+            }
+            for (sig, (n, case)) in &classes {
+                println!("  class x{n}: {sig}  e.g. {case}");
+            }
             exit = 1;
         }
         let wall = self.start.elapsed().as_secs_f64();
